@@ -108,6 +108,14 @@ pub fn build_template(t: &str, src: &Path, dst: &Path, names: &[&str]) {
             add("c-Y".into(), 'Y', 7);
             add("same-S".into(), 'S', 4);
         }
+        "T11" => {
+            // two names close to NAME_MAX that share their first 245 bytes (a shortened staging name would collide),
+            // one small and one larger file, transferred in parallel
+            let pre = "p".repeat(245);
+            add(format!("{pre}-aaaa.bin"), 'A', 3000);
+            add(format!("{pre}-bbbb.bin"), 'A', 200_000);
+            add("c-Y".into(), 'Y', 7);
+        }
         "T10" => {
             // one file that fits a pipe buffer but not a small remote file-size limit
             add("a-Z".into(), 'Z', 9);
@@ -134,7 +142,7 @@ pub fn build_template(t: &str, src: &Path, dst: &Path, names: &[&str]) {
         }
         _ => {}
     }
-    if t == "T7" || t == "T8" || t == "T9" || t == "T10" {
+    if t == "T7" || t == "T8" || t == "T9" || t == "T10" || t == "T11" {
         // minimal tail: one destination-only file (deleted with --delete) and one in a directory of its own
         put_file(dst, "only-dst", b"dst only", 1_400_000_000, 0);
         put_file(dst, "sub/only-dst-2", b"dst only 2", 1_400_000_001, 0);
@@ -621,9 +629,9 @@ pub fn run_c04(ctx: &Ctx) -> ! {
     if std::env::var("VH_NO_TSCHED").is_err() {
         // (template, jobs, tokio workers, preemption bound, cap)
         let systems: Vec<(&'static str, usize, usize, u32, u64)> = if thorough {
-            vec![("T7", 3, 4, 3, 60_000), ("T7", 2, 1, 3, 60_000), ("T7", 3, 1, 2, 60_000), ("T8", 4, 4, 1, 60_000), ("T8", 2, 1, 2, 60_000)]
+            vec![("T7", 3, 4, 3, 60_000), ("T7", 2, 1, 3, 60_000), ("T7", 3, 1, 2, 60_000), ("T8", 4, 4, 1, 60_000), ("T8", 2, 1, 2, 60_000), ("T11", 3, 4, 2, 20_000)]
         } else {
-            vec![("T7", 3, 4, 1, 3_000), ("T7", 2, 1, 1, 3_000)]
+            vec![("T7", 3, 4, 1, 3_000), ("T7", 2, 1, 1, 3_000), ("T11", 3, 4, 1, 3_000)]
         };
         for (template, jobs, workers, bound, cap) in systems {
             let c = Cfg { dir: "local", delete: true, exclude: "", jobs, verbose: false, template };
